@@ -269,6 +269,17 @@ def check_tools(ctx, q, nets):
         sv = sessions.base_survey(net)
         sh = shifts[ni % 3]
         sv2 = session.apply_edit(sv, {"k": "Translate", "de": sh[0], "dn": sh[1], "du": sh[2]})
+        if ni % 2 == 1 or net["t"] in ("vec3d", "vecmix3d"):
+            # epochs with different point sets: the first epoch lacks the first unknown point (all optional observations are used so that
+            # the rest stays determined); the positions of the common coordinates in the two covariance matrices then differ
+            full = session.apply_edit(sv, {"k": "AddConsistentObs", "s": 9})
+            unk = [p["id"] for p in full.pts if p["role"] == "unk"]
+            if len(unk) >= 3:
+                import copy
+                e1 = copy.deepcopy(full)
+                e1.pts = [p for p in e1.pts if p["id"] != unk[0]]
+                e1.obs = [o for o in e1.obs if unk[0] not in (o["fr"], o["to"], o["to2"])]
+                sv, sv2 = e1, session.apply_edit(full, {"k": "Translate", "de": sh[0], "dn": sh[1], "du": sh[2]})
         for which, s in ((0, sv), (1, sv2)):
             jobs.append({"gkf": s.gkf(), "args": [], "want": ["xml"], "keep": True})
             meta.append((ni, which))
@@ -382,9 +393,9 @@ def run(ctx):
     strings = sorted("".join(c["s"]).replace("_", " ") for c in r.cases)
     strings = [s for s in strings if s.strip() == s and s]            # ids are tokens: no leading / trailing blank
     ctx.note("XmlResult.tla: %d states, %d identifier strings" % (r.distinct, len(strings)))
-    bdir = vlib.build("plain", ["drv_results", "gama-local", "compare-xyz"])
+    bdir = vlib.build("plain", ["drv_results", "gama-local", "compare-xyz", "gama-local-deformation"])
     # ---- networks
-    r0, base = sessions.generate(ctx, "c12", {"Templates": '{"tri2d", "polar3d", "vec3d", "lev1d", "fstat2d"}', "NoiseSet": "{1, 2}", "MaxEdits": 0, "EditKinds": "{}",
+    r0, base = sessions.generate(ctx, "c12", {"Templates": '{"tri2d", "polar3d", "vec3d", "lev1d", "fstat2d", "vecmix3d"}', "NoiseSet": "{1, 2}", "MaxEdits": 0, "EditKinds": "{}",
                                               "KeepNet": 211 if q else 47, "KeepEdit": 1, "Seed": ctx.seed})
     import hashlib
     nets = [s["net"] for s in base]
